@@ -55,7 +55,7 @@ pub fn pack(values: &[(Val, Val)], container: usize) -> Project {
 }
 
 pub fn run(tier: Tier) -> i32 {
-    let rep = Reporter::new("C01", "L1", tier);
+    let rep = Reporter::new("C01", &engine_name("L1"), tier);
     let scratch = Scratch::new("c01");
     let keys_total = Mutex::new(0u64);
     let max_nodes = tier.pick(5, 6);
